@@ -168,7 +168,7 @@ func strTruncateFunc(_ *ctx.EvalCtx, receiver object.Object, args ...object.Obje
 		}
 	}
 
-	newVal := val[:firstArg.Value] + ellipsis
+	newVal := string([]rune(val)[:limit]) + ellipsis
 
 	return &object.Str{Value: newVal}, nil
 }
